@@ -352,10 +352,21 @@ def build_trace(job):
              (muls[5], muls[2]), (muls[8], muls[9])]
     pairs += [(rng.choice(pool), rng.choice(pool)) for _ in range(8 if quick else 40)]
     for (a, b) in pairs:
-        pool.append(B.prod("add", lambda: m.add(B.R(a), B.R(b)), a=a, b=b))
+        ab = B.prod("add", lambda: m.add(B.R(a), B.R(b)), a=a, b=b)
+        pool.append(ab)
+        # the same sums along other paths (equalities are what the abstract group decides): b + a, (a + b) + c and
+        # a + (b + c) for another register c
+        B.prod("add", lambda: m.add(B.R(b), B.R(a)), a=b, b=a)
+        c = rng.choice(pool)
+        B.prod("add", lambda: m.add(B.R(ab), B.R(c)), a=ab, b=c)
+        bc = B.prod("add", lambda: m.add(B.R(b), B.R(c)), a=b, b=c)
+        B.prod("add", lambda: m.add(B.R(a), B.R(bc)), a=a, b=bc)
     for _ in range(4 if quick else 16):
         a = rng.choice(pool)
-        pool.append(B.prod("double", lambda: m.double(B.R(a)), a=a))
+        da = B.prod("double", lambda: m.double(B.R(a)), a=a)
+        pool.append(da)
+        B.prod("add", lambda: m.add(B.R(a), B.R(a)), a=a, b=a)                             # 2a as a + a
+        B.prod("mul", lambda: m.multiply(B.R(a), 2), a=a, n=2)                             # and as multiply(a, 2)
         a = rng.choice(pool)
         ng = B.prod("neg", lambda: m.neg(B.R(a)), a=a)
         pool.append(ng)
